@@ -872,6 +872,39 @@ def stage_oracle_default_dirs(rep, cs):
     return bad
 
 
+def stage_oracle_pch(rep, rng):
+    """The pch option given by file name: the header must be precompiled for the language of the SOURCE that uses it
+    (a .h header on a C++ target is a C++ header) and the compile must really use it; built with the real gcc/g++."""
+    from . import project
+    import subprocess
+    bad = 0
+    cases = [('main.cpp', 'pre.h', 'c++'), ('main.cpp', 'pre.hpp', 'c++'), ('main.c', 'pre.h', 'c'), ('main.cc', 'inc/pre.h', 'c++')]
+    for src, hdr, lang in cases:
+        with project.Scratch('c16pch') as s:
+            body = '#include <%s>\n' % ('cstdlib' if lang == 'c++' else 'stdlib.h')
+            project.write_tree(s.src, {
+                'build.bfg': "project('p')\nexecutable('prog', files=[%r], pch=%r)\n" % (src, hdr),
+                hdr: body + 'static inline int pre_value(void) { return 37; }\n',
+                src: 'int main(void) { return pre_value() == 37 ? 0 : 1; }\n'})
+            rc, out = project.configure(s.src, s.build, 'make')
+            rep.case('pch:%s:%s' % (src, hdr), True)
+            if rc != 0:
+                bad += 1
+                rep.fail('configure fails for executable(%r, pch=%r): %s' % (src, hdr, out[-300:]), {'option': ['pch', hdr], 'source': src})
+                continue
+            p = subprocess.run(['make', '--no-print-directory'], cwd=s.build, env=common.impl_env(), capture_output=True, text=True, timeout=120)
+            ran = subprocess.run([os.path.join(s.build, 'prog')], capture_output=True).returncode if p.returncode == 0 else None
+            want_x = 'c++-header' if lang == 'c++' else 'c-header'
+            cmds = p.stdout
+            if p.returncode != 0 or ran != 0 or ('-x ' + want_x) not in cmds:
+                bad += 1
+                rep.fail('pch=%r on a %s target (%s): build rc=%s, program rc=%s, expected the header to be precompiled with -x %s: %s' % (
+                    hdr, lang, src, p.returncode, ran, want_x, (p.stderr or p.stdout)[-400:]),
+                    {'option': ['pch', hdr], 'source': src, 'lang': lang, 'make_stdout': p.stdout[-1500:], 'make_stderr': p.stderr[-800:]})
+    rep.stage('oracle:pch projects', cases=len(cases), failures=bad)
+    return bad
+
+
 def stage_system(rep, rng, cs):
     """Generated projects with pairwise option placements, configured by the real bfg9000 and built by make."""
     placements = ['global', 'target', 'env']
@@ -968,6 +1001,7 @@ def run(rep):
         rbad = stage_r_grammar(rep, rng, cs, thorough)
         found = stage_oracle(rep, rng, cs, thorough or bool(dis))   # wider probe set when the tie broke
         found = (found or 0) + stage_oracle_default_dirs(rep, cs)
+        found += stage_oracle_pch(rep, rng)
         rep.stage('compilers', invocations=cs.n)
         if thorough:
             stage_system(rep, rng, cs)
